@@ -189,6 +189,36 @@ func (e *Engine) yield(g *Gor, what string) {
 	e.switchTo(g, others[choice-1])
 }
 
+// sleepYield: time.Sleep / runtime.Gosched. A goroutine that sleeps lets the others run: when another
+// goroutine is enabled the token always goes to one of them, and the switch does not count against the
+// preemption bound (otherwise a polling loop - TryLock, Sleep, again - could spin for ever once the bound is
+// used up, although the lock holder would make progress in every real execution).
+func (e *Engine) sleepYield(g *Gor, what string) {
+	if g == nil {
+		g = e.cur
+	}
+	if !g.siteOK {
+		return
+	}
+	g.points++
+	if e.pointTrace {
+		e.pointLog = append(e.pointLog, fmt.Sprintf("g%d p%d %s %s", g.id, g.points, what, g.sitePos))
+	}
+	if !e.multi {
+		return
+	}
+	others := e.enabledOthers(g)
+	if len(others) == 0 {
+		return
+	}
+	choice := 0
+	if len(others) > 1 {
+		choice = e.decideN("sched", len(others))
+	}
+	e.schedLog = append(e.schedLog, schedEv{G: g.id, Point: g.points, Kind: "preempt", Next: others[choice].id})
+	e.switchTo(g, others[choice])
+}
+
 // blockOn parks g until cond holds.
 func (e *Engine) blockOn(g *Gor, cond func() bool, desc string) {
 	if g == nil {
@@ -524,6 +554,29 @@ func (e *Engine) rwLock(g *Gor, p *Value) {
 	m.writer = true
 	e.acquire(g, &m.vc)
 	e.acquire(g, &m.rvc)
+}
+
+func (e *Engine) rwTryLock(g *Gor, p *Value) bool {
+	m := e.rwOf(p)
+	e.yield(g, "RWMutex.TryLock")
+	if m.writer || m.readers > 0 {
+		return false
+	}
+	m.writer = true
+	e.acquire(g, &m.vc)
+	e.acquire(g, &m.rvc)
+	return true
+}
+
+func (e *Engine) rwTryRLock(g *Gor, p *Value) bool {
+	m := e.rwOf(p)
+	e.yield(g, "RWMutex.TryRLock")
+	if m.writer || m.writersWaiting > 0 {
+		return false
+	}
+	m.readers++
+	e.acquire(g, &m.vc)
+	return true
 }
 
 func (e *Engine) rwUnlock(g *Gor, p *Value) {
